@@ -524,4 +524,66 @@ class Wrapping(Parent[List[K]], Generic[K]):
             ctx.violation("dump-differs:attrs:handwritten-init", f"{label}: dump {d!r:.200}, expected {good_d!r}", {"source": source})
 
 
-DIRECTED = {"attrs-handwritten-init": _attrs_handwritten_init, "pydantic-one-parameter": _pydantic_one_parameter, "generic-namedtuple-one-parameter": _directed, "initvar-of-type-variable": _initvar, "inherited-init-false-fields": _init_false_fields}
+def _undecorated_children(ctx):
+    """A child that only binds the parameter - no decorator, no __init__ of its own - is the model its parent describes, for every kind
+    (defect #91: attrs and plain __init__ classes marked every inherited field as re-annotated by such a child; dataclasses worked)."""
+    mod = types.ModuleType(f"vlib_c16_un{next(_n)}")
+    sys.modules[mod.__name__] = mod
+    source = """
+from typing import Generic, TypeVar, List
+from dataclasses import dataclass
+import attrs
+T = TypeVar('T')
+@attrs.define
+class ABox(Generic[T]):
+    x: T
+    xs: List[T]
+class AIntBox(ABox[int]):
+    pass
+class AIntBox2(AIntBox):
+    pass
+@dataclass
+class DBox(Generic[T]):
+    x: T
+    xs: List[T]
+class DIntBox(DBox[int]):
+    pass
+class IBox(Generic[T]):
+    def __init__(self, x: T, xs: List[T]):
+        self.x, self.xs = x, xs
+class IIntBox(IBox[int]):
+    pass
+class IIntBox2(IIntBox):
+    pass
+@attrs.define
+class AOver(ABox[int]):
+    x: str
+class AOverChild(AOver):
+    pass
+"""
+    try:
+        exec(compile(source, f"<{mod.__name__}>", "exec", dont_inherit=True), mod.__dict__)  # noqa: S102
+    except ImportError:
+        ctx.count("attrs_missing")
+        return
+    for name, good_d, bad_d, dumps in (("AIntBox", {"x": 1, "xs": [2]}, {"x": "s", "xs": [2]}, True), ("AIntBox2", {"x": 1, "xs": [2]}, {"x": 1, "xs": ["s"]}, True),
+                                       ("DIntBox", {"x": 1, "xs": [2]}, {"x": "s", "xs": [2]}, True), ("IIntBox", {"x": 1, "xs": [2]}, {"x": "s", "xs": [2]}, False),
+                                       ("IIntBox2", {"x": 1, "xs": [2]}, {"x": 1, "xs": ["s"]}, False), ("AOver", {"x": "s", "xs": [2]}, {"x": 1, "xs": [2]}, True),
+                                       ("AOverChild", {"x": "s", "xs": [2]}, {"x": "s", "xs": ["t"]}, True)):
+        hint = getattr(mod, name)
+        ok_, ko_ = attempt(Retort().load, good_d, hint), attempt(Retort().load, bad_d, hint)
+        ctx.evaluated(("directed-undecorated", name), nontrivial=True)
+        ctx.count("conforming_loads")
+        ctx.count("nonconforming_loads")
+        if ok_.kind != "ok":
+            ctx.violation("conforming-data-rejected:undecorated-child", f"{name}: {good_d!r} -> {ok_!r:.250}", {"source": source})
+            continue
+        if ko_.kind == "ok":
+            ctx.violation("other-substitution-accepted:undecorated-child", f"{name}: {bad_d!r} accepted", {"source": source})
+        if dumps:
+            d = attempt(Retort().dump, ok_.value, hint)
+            if d.kind != "ok" or not _dump_eq(d.value, good_d):
+                ctx.violation("dump-differs:undecorated-child", f"{name}: dump {d!r:.200}, expected {good_d!r}", {"source": source})
+
+
+DIRECTED = {"undecorated-children": _undecorated_children, "attrs-handwritten-init": _attrs_handwritten_init, "pydantic-one-parameter": _pydantic_one_parameter, "generic-namedtuple-one-parameter": _directed, "initvar-of-type-variable": _initvar, "inherited-init-false-fields": _init_false_fields}
